@@ -138,7 +138,10 @@ def explore(ctx, specs, monitor_fns, sampler=None):
             try:
                 # runs on the non-threaded executor execute every task inside submit():
                 # the staged-executor model does not describe them; monitors only
-                vb = [(i, r) for i, r in enumerate(batch) if not r.spec.get('nonthreaded')]
+                # (runs with state writes as scheduling points are judged by the monitors only: there the
+                #  linearisation point of an operation is its status write, not the log record written
+                #  when the call returns, so the recorded order is not the model's)
+                vb = [(i, r) for i, r in enumerate(batch) if not r.spec.get('nonthreaded') and not r.spec.get('state_write_yield')]
                 if vb:
                     rej0, out, spans = validate_batch([r for _, r in vb])
                     rej = {vb[j][0]: v for j, v in rej0.items()}
@@ -335,6 +338,24 @@ def specs_nonthreaded_interrupt(ctx, kinds):
                                 s3_fault=dict(idx=idx, when=when, exc='kbi')))
             out.append(dict(transfers=[ts], cfg=CFG_SMALL, chooser={'kind': 'first'}, nonthreaded=True,
                             s3_fault=dict(idx=idx, when='before')))
+    return out
+
+
+def specs_torn_state(ctx, kinds, seeds=1):
+    """A cancel (or a failing request) racing the final task and the waiting user, with every write of the
+    coordinator's status / exception / result a scheduling point: lock-free readers may run between the
+    two writes of a critical section."""
+    rng = ctx.rng('specs', 'torn')
+    out = []
+    for ts in kinds:
+        for sd in range(seeds):
+            for at in (6, 14, 22, 30, 38, 46, 54, 62, 74, 90):
+                out.append(dict(transfers=[ts], cfg=dict(CFG_SMALL, max_request_concurrency=rng.choice([1, 2])),
+                                chooser={'kind': ['pct', 'random'][at % 2], 'seed': rng.randrange(1 << 30), 'depth': 4},
+                                cancel=dict(how='future', at=at), state_write_yield=True))
+            for idx in (1, 2, 3):
+                out.append(dict(transfers=[ts], cfg=CFG_SMALL, chooser={'kind': 'pct', 'seed': rng.randrange(1 << 30), 'depth': 4},
+                                s3_fault=dict(idx=idx, when='before'), state_write_yield=True))
     return out
 
 
